@@ -35,7 +35,7 @@ IsSub(h, o) == h.obs[o].n /\ h.obs[o].e /\ h.obs[o].c
 Order(hh, seq) == IF hh.rev THEN [i \in 1..Len(seq) |-> seq[Len(seq) + 1 - i]] ELSE seq
 
 \* integer codecs (items are small naturals 0..9)
-ObsBase == 100000                       \* value ObsBase + j denotes "observable of subject j"
+ObsBase == 100000000                       \* value ObsBase + j denotes "observable of subject j"
 RECURSIVE EncList(_)
 EncList(xs) == IF xs = <<>> THEN 1 ELSE EncList(SubSeq(xs, 1, Len(xs) - 1)) * 10 + xs[Len(xs)]   \* <<a,b>> -> 1ab
 EncMatN(x) == x
@@ -401,7 +401,8 @@ RepeatLoop(h, o, x) ==
   ELSE RepeatLoop(CallNext([h EXCEPT !.fuel = @ - 1], o, x), o, x)
 
 SubscribeInputs(h, ins, os) == IF ins = <<>> \/ h.stuck # "" THEN h ELSE SubscribeInputs(Subscribe(h, Head(ins), Head(os)), Tail(ins), Tail(os))
-Subscribe(h, t, o) == IF h.stuck # "" THEN h ELSE IF h.fuel = 0 THEN [h EXCEPT !.div = TRUE] ELSE Subscribe0([h EXCEPT !.fuel = @ - 1], t, o)
+\* Observable::inner_subscribe: an observer that has already ended does not start the source
+Subscribe(h, t, o) == IF h.stuck # "" \/ ~IsSub(h, o) THEN h ELSE IF h.fuel = 0 THEN [h EXCEPT !.div = TRUE] ELSE Subscribe0([h EXCEPT !.fuel = @ - 1], t, o)
 
 MkObservers(h, c, k) ==   \* k observers with ports 1..k, in creation order
   LET RECURSIVE Mk(_,_,_)
